@@ -291,4 +291,29 @@ theorem runI_invert (v : Vals) (p : Q) :
     simp [runI, invertBody, fieldQ, Q.ofString?, Vals.setOpt, Vals.get, invert, invertLeft, swapPreserve, Q.name,
       List.find?, pure, Except.pure, *]
 
+/-! ### `Chop.__post_init__` interpreted from what the source says now -/
+
+/-- `Chop.__post_init__` as the translated table describes it: `names` are the attributes counted as grading parameters,
+    fewer than `k` given and attribute `a` unset → `a = v`; attribute `b` (the count) set → `max(int(b), m)` -/
+def postInitGen (tbl : List String × Nat × (String × Nat) × (String × Nat))
+    (count : Option Int) (start end_ c2c total : Option Rat) : Option Vals :=
+  match tbl with
+  | (names, k, (a, v), (b, m)) => do
+      let qs ← names.mapM Q.ofString?
+      let qa ← fieldQ a
+      if b ≠ "count" then none
+      let isSet : Q → Bool := fun q =>
+        match q with
+        | .count => count.isSome | .start => start.isSome | .end_ => end_.isSome | .c2c => c2c.isSome
+        | .total => total.isSome
+      let given := (qs.filter isSet).length
+      let raw : Vals := { count := count.map (fun c => (max c (m : Int)).toNat), start := start, end_ := end_,
+                          c2c := c2c, total := total }
+      some (if given < k ∧ isSet qa = false then raw.setOpt qa (some (v : Rat)) else raw)
+
+theorem postInitGen_eq (count : Option Int) (start end_ c2c total : Option Rat) :
+    postInitGen CBV.Gen.c03PostInit count start end_ c2c total = some (postInit count start end_ c2c total) := by
+  cases count <;> cases start <;> cases end_ <;> cases c2c <;> cases total <;>
+    simp [postInitGen, CBV.Gen.c03PostInit, postInit, fieldQ, Q.ofString?, Vals.setOpt, List.mapM_cons, List.filter]
+
 end CBV.C03
